@@ -23,7 +23,9 @@ SLUG = [
 UNDECIDED_PAT = re.compile(
     r"rlimit|[Rr]esource limit|not supported|unsupported|does not (yet )?support|timed? ?out|"
     r"cannot find|unresolved|mismatched types|expected .* found|no method named|"
-    r"The verifier does not yet support|internal error|panicked", re.I)
+    r"The verifier does not yet support|internal error|panicked|unexpected token|expected one of|"
+    r"cannot call function|mode mismatch|expected mode|not allowed|is private|no field|multiple applicable|"
+    r"cannot infer|borrow|lifetime|mismatched|unknown (field|token)|failed to resolve", re.I)
 
 
 def run_unit(meta, rlimit=50, extra=None, timeout=1800, threads=8):
@@ -68,7 +70,8 @@ def run_unit(meta, rlimit=50, extra=None, timeout=1800, threads=8):
             continue
         if d.get("level") == "error" and not d.get("message", "").startswith("aborting due to"):
             diags.append(d)
-    hard = vr.get("encountered-vir-error") or "verified" not in vr
+    hard = vr.get("encountered-vir-error") or "verified" not in vr or \
+        (diags and vr.get("errors", 0) == 0 and vr.get("verified", 0) == 0)
     unit_name = meta["unit"]
     for d in diags:
         msg = d.get("message", "")
